@@ -122,6 +122,8 @@ def generate(rs: int, tier: str, index: int) -> dict:
             st["subset_names"] = c.chance(0.4)  # the partner lists only the indeterminates it uses (another names tuple)
         if kind == "pow":
             st["n"] = c.choice([2, 2, 3])
+            if c.sub("ntype").chance(0.3):
+                st["n_type"] = c.sub("ntype").choice(["int64", "int8", "uint8", "uint64", "0d"])  # the power arrives as a numpy scalar / 0-d array
             if c.chance(0.25):
                 st["n"] = c.choice([4099, 2053, 1031, 4099])  # only used on single-term bases whose result is unrepresentable
         if kind == "struct":
@@ -379,7 +381,8 @@ class Runner:
                         top = max(max(k) for k in m) if m else 0
                         if len(m) != 1 or nv != 1 or top * n_pow <= MAXEXP or top < 70:
                             n_pow = 2  # the long chain of multiplications is only affordable when it must fail early
-                    res = p ** n_pow
+                    nt = st.get("n_type") if n_pow <= 3 else None
+                    res = p ** (n_pow if not nt else numpy.array(n_pow) if nt == "0d" else numpy.dtype(nt).type(n_pow))
                     st = dict(st, n=n_pow)
                     want = {(0,) * nv: 1}
                     for _ in range(st["n"]):
@@ -399,7 +402,7 @@ class Runner:
                             key = k[:i] + (k[i] - 1,) + k[i + 1:]
                             want[key] = want.get(key, 0) + c * k[i]
                 elif kind == "eval1":
-                    res = p(*([1] * nv))
+                    res = p(*([numpy.int64(1) if idx % 2 else 1] * nv))
                     scalar_want = sum(m.values())
                 elif kind == "evalpart":
                     kept_top = max((k[i] for k in m for i in range(nv) if i not in st["vars"]), default=0)
